@@ -206,6 +206,16 @@ Definition format_chain (fmt : str) (ops : list op) : res := str_of (apply_ops (
 Definition stream_chain (o : ostream) (fmt : str) (ops : list op) (sentinel : str) : str * bool :=
   stream_then o fmt (fun f => apply_ops f ops) sentinel.
 
+(* the formatter OBJECT is a value: its format text and the arguments supplied so far.  The class declares
+   no copy/move operation, so copy and move construction and assignment, relocation inside a growing
+   std::vector and return by value all give a target holding the source's format and arguments, and
+   nothing in the target refers to the source (format_ and args_ own their text) — it may be destroyed
+   or reused afterwards. *)
+Definition relocate (f : formatter) : formatter := f.
+(* arguments `pre` given before the relocation, `post` given to the target afterwards, then str() *)
+Definition reloc_chain (fmt : str) (pre post : list op) : res :=
+  str_of (apply_ops (relocate (apply_ops (mk fmt) pre)) post).
+
 (* several formatter objects used one after the other on the same thread: the class has no static or
    thread-local member and operator% builds its stream locally, so no state is carried from one
    formatter (or one argument) to the next — each result is that of the formatter alone *)
